@@ -535,9 +535,10 @@ class Rooms(Combinator[RoomsType]):
             for y in range(height - 1)
         ]
 
+        # a board without cells (height or width 0) has no borders either
         combinator = Tupl(
-            Grid(MultiDigit(base=2, digits=5), height=height, width=width - 1),
-            Grid(MultiDigit(base=2, digits=5), height=height - 1, width=width),
+            Grid(MultiDigit(base=2, digits=5), height=height, width=max(width - 1, 0)),
+            Grid(MultiDigit(base=2, digits=5), height=max(height - 1, 0), width=width),
         )
         return combinator.serialize(env, [([vertical], [horizontal])], 0)
 
@@ -559,9 +560,10 @@ class Rooms(Combinator[RoomsType]):
         height = env.height
         width = env.width
 
+        # a board without cells (height or width 0) has no borders either
         combinator = Tupl(
-            Grid(MultiDigit(base=2, digits=5), height=height, width=width - 1),
-            Grid(MultiDigit(base=2, digits=5), height=height - 1, width=width),
+            Grid(MultiDigit(base=2, digits=5), height=height, width=max(width - 1, 0)),
+            Grid(MultiDigit(base=2, digits=5), height=max(height - 1, 0), width=width),
         )
         res = combinator.deserialize(env, data, idx)
         if res is None:
